@@ -21,13 +21,21 @@ RULE = ('scene = tuple of leaves from a menu {colour int, string, multivector in
         'multivector as pre_subjects[i]; on every transition: exactly the addressed multivector changed, to the reported coefficients.')
 ASSUMPTIONS = ['ganja Elements list coefficients in kingdon\'s canonical blade order for default bases (key2idx is checked against it)',
                'kverif.frontend ports toElement/decode/encode of graph.js literally; rendering itself (ganja.js) is out of scope']
-BOUNDS = {'quick': 'Algebra(2,0,1), Algebra(3,0,1), Algebra(2), Algebra(3); scenes with <=2 leaves from the full menu + 3 leaves from a 9-leaf sub-menu, 4 nesting wrappers; '
+BOUNDS = {'quick': 'Algebra(2,0,1), Algebra(3,0,1), Algebra(2), Algebra(3); scenes with 1 leaf from the full 29-leaf menu, 2 leaves (full menu x 9-leaf sub-menu, both orders) and 3 leaves from the sub-menu, 4 nesting wrappers; '
                    'drag BFS depth 2 (depth 3 for single-leaf scenes)',
           'thorough': 'adds Algebra(1), Algebra(4), Algebra(1,1,1), Algebra(4,0,1)*; scenes with <=3 leaves from the full menu, 4 leaves from the sub-menu; drag BFS depth 3'}
 
-ALGS = {'pga2': (2, 0, 1), 'pga3': (3, 0, 1), 'vga2': (2, 0, 0), 'vga3': (3, 0, 0), 'vga1': (1, 0, 0), 'vga4': (4, 0, 0), 'mix3': (1, 1, 1)}
+ALGS = {'pga2': (2, 0, 1), 'pga3': (3, 0, 1), 'vga2': (2, 0, 0), 'vga3': (3, 0, 0), 'vga1': (1, 0, 0), 'vga4': (4, 0, 0), 'mix3': (1, 1, 1),
+        # explicit signature orderings that share (p, q, r)
+        'sig+-': [1, -1], 'sig-+': [-1, 1], 'sig0++': [0, 1, 1], 'sig++0': [1, 1, 0], 'sig+0+': [1, 0, 1]}
+
+
+def mkalg(name):
+    from kingdon import Algebra
+    a = ALGS[name]
+    return Algebra(signature=list(a)) if isinstance(a, list) else Algebra(*a)
 LAYOUTS = ['sparse', 'permuted', 'dense', 'densebin', 'empty']
-BACKINGS = ['list', 'intarr', 'floatarr']
+BACKINGS = ['list', 'intarr', 'floatarr', 'f32arr', 'i32arr']
 MENU = ['int', 'str'] + [f'mv:{l}:{b}' for l in LAYOUTS for b in BACKINGS if not (l == 'empty' and b != 'list')] + ['mv:arr1', 'mv:arr2', 'call:mv', 'call:list', 'mv:point:list']
 SUBMENU = ['int', 'mv:sparse:list', 'mv:permuted:floatarr', 'mv:densebin:list', 'mv:dense:intarr', 'mv:arr1', 'call:mv', 'call:list', 'mv:point:list']
 WRAPS = ['plain', 'list', 'tuple', 'rootcall']
@@ -37,8 +45,16 @@ DELTAS = [0.5, -1.25, 2.0]
 def shards(tier, seed):
     algs = ['pga2', 'pga3', 'vga2', 'vga3'] + (['vga1', 'vga4', 'mix3'] if tier == 'thorough' else [])
     sh = []
+    sh.append(dict(stratum='algebra description (signature, key2idx, cayley) for signature orderings sharing (p,q,r), one process, two orders', alg='sig+-', kind='describe',
+                   seq=['sig+-', 'sig-+', 'vga2', 'sig0++', 'sig++0', 'sig+0+', 'pga2', 'sig-+', 'sig+-', 'sig+0+', 'sig0++']))
     for a in algs:
-        scenes = [[m] for m in MENU] + [list(p) for p in product(MENU, repeat=2)]
+        scenes = [[m] for m in MENU]
+        if tier == 'quick':
+            # every leaf kind next to (before and after) each leaf of the sub-menu
+            pairs = [list(p) for p in product(MENU, SUBMENU)] + [list(p) for p in product(SUBMENU, MENU)]
+            scenes += [list(t) for t in dict.fromkeys(tuple(p) for p in pairs)]
+        else:
+            scenes += [list(p) for p in product(MENU, repeat=2)]
         if tier == 'quick':
             scenes += [list(p) for p in product(SUBMENU, repeat=3)]
         else:
@@ -82,6 +98,10 @@ def make_mv(alg, layout, backing, salt):
         vals = np.array([int(2 * v) for v in vals], dtype=np.int64)
     elif backing == 'floatarr':
         vals = np.array(vals, dtype=np.float64)
+    elif backing == 'f32arr':
+        vals = np.array(vals, dtype=np.float32)      # all menu values are exactly representable in float32
+    elif backing == 'i32arr':
+        vals = np.array([int(2 * v) for v in vals], dtype=np.int32)
     return MultiVector.fromkeysvalues(alg, tuple(keys), vals)
 
 
@@ -95,8 +115,7 @@ def make_arr(alg, rank, salt):
 
 
 def build_scene(algname, leaves, wrap):
-    from kingdon import Algebra
-    alg = Algebra(*ALGS[algname])
+    alg = mkalg(algname)
     mvs = []
     items = []
     for i, leaf in enumerate(leaves):
@@ -377,6 +396,12 @@ def apply_drag(res, w, alg, subjects, mvs, p, v, desc, case, check, leaves):
 
 def run_shard(shard):
     res = Result()
+    if shard.get('kind') == 'describe':
+        for a in shard['seq']:
+            check_static(res, a, ['mv:point:list', 'int'], 'plain', {'alg': a, 'leaves': ['mv:point:list', 'int'], 'wrap': 'plain', 'depth': 0, 'describe_seq': shard['seq']})
+        d = res.asdict()
+        d['traces'] = d['transitions']
+        return d
     algname = shard['alg']
     for leaves in shard['scenes']:
         wraps = WRAPS if len(leaves) <= 2 else ['plain']
@@ -388,8 +413,7 @@ def run_shard(shard):
             else:
                 check_static(res, algname, leaves, wrap, case)
     # camera option
-    from kingdon import Algebra
-    alg = Algebra(*ALGS[algname])
+    alg = mkalg(algname)
     cam = make_mv(alg, 'permuted', 'list', 3)
     res.evals += 1
     try:
@@ -405,6 +429,8 @@ def run_shard(shard):
 
 
 def replay(case):
+    if case.get('describe_seq'):
+        return run_shard({'alg': case['alg'], 'kind': 'describe', 'seq': case['describe_seq']})
     if case.get('wrap') == 'camera':
         return run_shard({'alg': case['alg'], 'scenes': [], 'depth': 0})
     return run_shard({'alg': case['alg'], 'scenes': [case['leaves']], 'depth': case.get('depth', 2)})
